@@ -79,7 +79,7 @@ def gen(seed, tier):
         ops += pre
         ops.append(['ASSERT', False, rng.choice(('fact', 'query', 'wrapv', 'inline')), [['v', x]]])
         for _ in range(rng.randrange(0, len(pre) + 1)):
-            ops.append(['POP', rng.choice(('close', 'drop', 'resume'))])
+            ops.append(['POP', rng.choice(('close', 'drop', 'resume', 'throw'))])
     if rng.random() < 0.15:
         # same-fact focus: one fact with a repeated variable, used by several independent uses with different
         # ground arguments (one suspended, one started and finished meanwhile, a third started afterwards ...)
@@ -97,7 +97,7 @@ def gen(seed, tier):
             t1 = ['v', rng.randrange(nv)] if rng.random() < 0.7 else small_term(rng, nv)
             ops.append(['PUSH', t1, small_term(rng, nv)])
         elif k < 0.38:
-            ops.append(['POP', rng.choice(('close', 'drop', 'resume'))])
+            ops.append(['POP', rng.choice(('close', 'drop', 'resume', 'throw'))])
         elif k < 0.58:
             ar = rng.choice((1, 1, 2))
             ops.append(['ASSERT', rng.random() < 0.25, rng.choice(('fact', 'query', 'wrapv', 'inline', 'inlinef')), [small_term(rng, nv) for _ in range(ar)]])
